@@ -21,6 +21,7 @@ CHECKS["C20"] = {
         {"name": "cmp", "pkg": "utils", "run": "TestVX_C20_Cmp", "public_files": ["utils/C20_pub_test.go"]},
         {"name": "naf", "pkg": "utils", "run": "TestVX_C20_NAF", "public_files": ["utils/C20_pub_test.go"],
          "shards": {"quick": 4, "thorough": 16}},
+        {"name": "cmp-huge", "pkg": "utils", "run": "TestVX_C20_CmpHuge", "public_files": ["utils/C20_pub_test.go", "utils/C20huge_pub_test.go"], "shards": 5},
     ],
     "deadline": {"quick": 120, "thorough": 1500},
 }
@@ -35,7 +36,7 @@ CHECKS["C04"] = {
         {"name": "sm3-huge", "pkg": "sm3", "run": "TestVX_C04Huge", "public_files": ["sm3/C04huge_pub_test.go"],
          "shards": {"quick": 2, "thorough": 3}},
         {"name": "sm3-single-huge", "pkg": "sm3", "run": "TestVX_C04Single", "public_files": ["sm3/C04huge_pub_test.go"],
-         "shards": {"quick": 4, "thorough": 8}},
+         "shards": {"quick": 10, "thorough": 10}},
         {"name": "cold-start", "pkg": "sm3", "run": "TestVX_C04Cold", "public_files": ["sm3/Cold_pub_test.go"], "shards": 2, "exclusive": True},
     ],
     "deadline": {"quick": 200, "thorough": 3000},
@@ -130,6 +131,8 @@ CHECKS["C01"] = {
     "assumptions": ["public keys derived with sm2ref; shapes of r, s, t are solved for rather than sampled", "leading-zero-byte alphabets, not all 2^256 values"],
     "parts": [
         {"name": "sign-verify", "pkg": "sm2", "run": "TestVX_C01", "public_files": SM2P + ["sm2/C01_pub_test.go"], "shards": 16},
+        {"name": "crowd", "pkg": "sm2", "run": "TestVX_Crowd", "public_files": SM2P + ["sm2/Crowd_pub_test.go"], "gomaxprocs": 16, "exclusive": True,
+         "env": {"VX_CROWD_PROP": "C01"}},
     ],
     "deadline": {"quick": 120, "thorough": 1500},
 }
@@ -139,6 +142,8 @@ CHECKS["C03"] = {
     "assumptions": ["sm2ref.Verify (the seven conditions of GM/T 0003.2 7.1) is the oracle", "mutations are single-bit/length/range/solved classes of a small set of base signatures"],
     "parts": [
         {"name": "verify-exact", "pkg": "sm2", "run": "TestVX_C03", "public_files": SM2P + ["sm2/C01_pub_test.go", "sm2/C03_pub_test.go"], "shards": 16},
+        {"name": "crowd", "pkg": "sm2", "run": "TestVX_Crowd", "public_files": SM2P + ["sm2/Crowd_pub_test.go"], "gomaxprocs": 16, "exclusive": True,
+         "env": {"VX_CROWD_PROP": "C03"}},
     ],
     "deadline": {"quick": 200, "thorough": 2400},
 }
@@ -163,6 +168,8 @@ CHECKS["C05"] = {
         {"name": "block-public-generic", "variant": "generic", "pkg": "sm4", "run": "TestVX_C05_Public", "public_files": SM4P + ["sm4/C05_pub_test.go"],
          "shards": 4, "env": {"VX_PART": "block-public-generic"}},
         {"name": "cold-start", "pkg": "sm4", "run": "TestVX_C05Cold", "public_files": SM4P + ["sm4/Cold_pub_test.go"], "shards": 2, "exclusive": True, "env": {"VX_PART": "cold-start"}},
+        {"name": "fresh-shared", "pkg": "sm4", "run": "TestVX_FreshShared", "public_files": SM4P + ["sm4/Stack_pub_test.go", "sm4/Fresh_pub_test.go"],
+         "shards": 4, "gomaxprocs": 16, "exclusive": True, "env": {"VX_PART": "fresh-shared", "VX_FRESH_PROP": "C05"}},
         {"name": "cold-start-generic", "variant": "generic", "pkg": "sm4", "run": "TestVX_C05Cold", "public_files": SM4P + ["sm4/Cold_pub_test.go"],
          "shards": 2, "exclusive": True, "env": {"VX_PART": "cold-start-generic"}},
     ],
@@ -217,7 +224,7 @@ CHECKS["C07"] = {
          "public_files": SM4P + ["sm4/C10_pub_test.go", "sm4/C06_pub_test.go", "sm4/C07_pub_test.go"], "shards": 16, "env": {"VX_PART": "open-generic"}},
         {"name": "asm-entry-state", "cmd": ["env", "VX_LIVEIN_PROP=C07", "python3", "{verif}/tools/asmlivein.py"]},
         {"name": "open-huge", "pkg": "sm4", "run": "TestVX_C07Huge", "public_files": SM4P + ["sm4/C06huge_pub_test.go"],
-         "shards": {"quick": 5, "thorough": 8}, "env": {"VX_PART": "open-huge"}},
+         "shards": {"quick": 11, "thorough": 16}, "env": {"VX_PART": "open-huge"}},
     ],
     "prepare": {"generic": [["python3", "{verif}/tools/prep_generic.py", "{repo}"]], "armglue": [["python3", "{verif}/tools/prep_armglue.py", "{repo}"]]},
     "deadline": {"quick": 200, "thorough": 3000},
@@ -234,7 +241,9 @@ CHECKS["C11"] = {
         {"name": "guard-public", "pkg": "sm4", "run": "TestVX_C11", "public_files": SM4P + ["sm4/C10_pub_test.go", "sm4/C11_pub_test.go"], "shards": 16, "env": {"VX_PART": "seal"}},
         {"name": "guard-public-generic", "variant": "generic", "pkg": "sm4", "run": "TestVX_C11", "public_files": SM4P + ["sm4/C10_pub_test.go", "sm4/C11_pub_test.go"],
          "shards": 16, "env": {"VX_PART": "guard-public-generic"}},
-        {"name": "stack-sweep", "pkg": "sm4", "run": "TestVX_StackSweep", "public_files": SM4P + ["sm4/C10_pub_test.go", "sm4/C11_pub_test.go", "sm4/Stack_pub_test.go"],
+        {"name": "watchpoints", "pkg": "sm4", "run": "TestVX_C11_Watch", "public_files": SM4P + ["sm4/C10_pub_test.go", "sm4/C11_pub_test.go", "sm4/Stack_pub_test.go", "sm4/Watch_pub_test.go"],
+         "shards": 8, "env": {"VX_PART": "watchpoints"}},
+        {"name": "stack-sweep", "pkg": "sm4", "run": "TestVX_StackSweep", "public_files": SM4P + ["sm4/C10_pub_test.go", "sm4/C11_pub_test.go", "sm4/Stack_pub_test.go", "sm4/Watch_pub_test.go"],
          "shards": 12, "env": {"VX_PART": "stack-sweep", "VX_STACK_PROP": "C11", "GODEBUG": "efence=1,adaptivestackstart=0"}},
     ],
     "deadline": {"quick": 200, "thorough": 2400},
@@ -275,6 +284,10 @@ CHECKS["C17"] = {
         {"name": "race-sm2", "variant": "sched", "race": True, "pkg": "sm2", "run": "TestVX_C17_SM2_Race", "public_files": SM2P + ["sm2/C17_pub_test.go"], "gomaxprocs": 16},
         {"name": "stack-sweep", "pkg": "sm4", "run": "TestVX_StackSweep", "public_files": SM4P + ["sm4/Stack_pub_test.go"],
          "shards": 12, "env": {"VX_PART": "stack-sweep", "VX_STACK_PROP": "C17", "GODEBUG": "efence=1,adaptivestackstart=0"}},
+        {"name": "fresh-shared", "pkg": "sm4", "run": "TestVX_FreshShared", "public_files": SM4P + ["sm4/Stack_pub_test.go", "sm4/Fresh_pub_test.go"],
+         "shards": 4, "gomaxprocs": 16, "exclusive": True, "env": {"VX_PART": "fresh-shared", "VX_FRESH_PROP": "C17"}},
+        {"name": "crowd", "pkg": "sm2", "run": "TestVX_Crowd", "public_files": SM2P + ["sm2/Crowd_pub_test.go"], "gomaxprocs": 16, "exclusive": True,
+         "env": {"VX_CROWD_PROP": "C17"}},
         {"name": "cold-concurrent", "race": True, "pkg": "sm2", "run": "TestVX_SM2Cold", "public_files": SM2P + ["sm2/Cold_pub_test.go"], "gomaxprocs": 16, "shards": 8,
          "env": {"VX_PART": "cold-concurrent"}},
     ],
@@ -322,3 +335,50 @@ for _pid, _names in W32.items():
     _c["parts"] = _c["parts"] + _new
     if "" in _c.get("prepare", {}):
         _c["prepare"]["w32"] = _c["prepare"][""]
+
+# ---------------------------------------------------------------- other build configurations of the host target
+# GOAMD64=v3 selects files tagged amd64.v3 (and lets the compiler use BMI2/AVX2 forms): the pure-Go drivers below are
+# built and run a second time in that configuration (the host has the instructions).
+V3 = {"C20": ["cmp", "naf"], "C16": ["field", "multiselect"], "C14": ["mul-public"], "C04": ["sm3-history"], "C12": ["keys"]}
+for _pid, _names in V3.items():
+    _c = CHECKS[_pid]
+    _new = []
+    for _p in _c["parts"]:
+        if _p["name"] in _names and not _p.get("variant"):
+            _q = dict(_p)
+            _q["name"] = _p["name"] + "-v3"
+            _q["variant"] = "v3"
+            _q["goenv"] = {"GOAMD64": "v3"}
+            _q["tier_cap"] = "quick"
+            _q.pop("files", None)
+            _q.pop("kind", None)
+            _new.append(_q)
+    _c["parts"] = _c["parts"] + _new
+    if "" in _c.get("prepare", {}):
+        _c["prepare"]["v3"] = _c["prepare"][""]
+
+# ---------------------------------------------------------------- a target that is neither amd64, 386 nor arm64
+# Code selected by "every other GOARCH" (portable fallbacks keyed on the architecture) is built for js/wasm and executed
+# by node through the Go distribution's loader (misc/wasm/wasm_exec_node.js). If node is missing the parts fail to start
+# and the variant is reported as a lost seam.
+import shutil as _shutil
+WASM = {"C05": ["block-public"], "C04": ["sm3-history"], "C20": ["cmp", "naf"]}
+if _shutil.which("node"):
+    for _pid, _names in WASM.items():
+        _c = CHECKS[_pid]
+        _new = []
+        for _p in _c["parts"]:
+            if _p["name"] in _names and not _p.get("variant"):
+                _q = dict(_p)
+                _q["name"] = _p["name"] + "-wasm"
+                _q["variant"] = "wasm"
+                _q["goenv"] = {"GOOS": "js", "GOARCH": "wasm"}
+                _q["runner"] = "wasm"
+                _q["tier_cap"] = "quick"
+                _q.pop("files", None)
+                _q.pop("kind", None)
+                _q["env"] = dict(_p.get("env", {}), VX_WASM="1")
+                _new.append(_q)
+        _c["parts"] = _c["parts"] + _new
+        if "" in _c.get("prepare", {}):
+            _c["prepare"]["wasm"] = _c["prepare"][""]
